@@ -83,6 +83,11 @@ def s2(name):
         # hand-written dataclasses may use soft keywords and builtin names as field names
         return Catalogue("s2-names", [Shape("M", [_n(F("type", 1, "int32")), _n(F("match", 2, "string")), F("case", 3, "bool"), _n(F("id", 4, "int64")),
                                                   _n(F("list", 5, "uint32", "repeated")), _n(F("str", 6, "string", "optional"))])], E)  # fmt: skip
+    if name == "maps2":
+        # map fields whose Python key/value classes coincide while their protobuf kinds differ
+        return Catalogue("s2-maps2", [Shape("M", [F("a", 1, "int32", "map", key="string"), F("b", 2, "sint32", "map", key="string"),
+                                                  F("c", 3, "string", "map", key="int32"), F("d", 4, "string", "map", key="sint64"),
+                                                  F("e", 5, "fixed32", "map", key="string")])], E)  # fmt: skip
     if name == "packed":
         return Catalogue("s2-packed", [Shape("M", [
             F("a", 1, "sint32", "repeated"), F("f", 2, "fixed32", "repeated"), F("b", 3, "bool", "repeated"),
@@ -90,7 +95,7 @@ def s2(name):
     raise KeyError(name)
 
 
-S2_NAMES = ["mixed", "oneofs", "nested", "recursive", "mutual", "repmsg", "mapmsg", "optionals", "wrappers", "wrappers2", "names", "packed"]
+S2_NAMES = ["mixed", "oneofs", "nested", "recursive", "mutual", "repmsg", "mapmsg", "optionals", "wrappers", "wrappers2", "names", "maps2", "packed"]
 S1_KINDS = SCALARS + ["enum", "message"] + ["wrap:" + k for k in WRAPPER_OF]
 S1_MAP_VALUES = ["int32", "string", "bytes", "enum", "message", "double"]
 
